@@ -469,6 +469,23 @@ func RunSession(spec *SessSpec) *Trace {
 			return nil
 		}
 	}
+	seqnoFail := new(int32)
+	for _, st := range spec.Steps {
+		if st.Op == "seqnofail" {
+			// while switched on, the node answers sequence-number queries with an error status
+			prevHook := env.Sim.Hook
+			env.Sim.Hook = func(r *cbsim.Req) *cbsim.Action {
+				if r.Op == cbsim.OpGetAllVBSeqnos && atomic.LoadInt32(seqnoFail) == 1 {
+					return &cbsim.Action{HasStatus: true, Status: 0x84}
+				}
+				if prevHook != nil {
+					return prevHook(r)
+				}
+				return nil
+			}
+			break
+		}
+	}
 	collFail := new(int32)
 	for _, st := range spec.Steps {
 		if st.Op == "collfail" {
@@ -1061,6 +1078,13 @@ func RunSession(spec *SessSpec) *Trace {
 			hx.WaitFor(12*time.Second, func() bool {
 				return len(env.Log.Filter(func(r evlog.Rec) bool { return r.K == "log.delay" && r.S == key })) > 0
 			})
+		case "seqnofail":
+			v := int32(1)
+			if st.Sel == "off" {
+				v = 0
+			}
+			atomic.StoreInt32(seqnoFail, v)
+			env.Log.Add(evlog.Rec{K: "ctl.seqnofail", VB: -1, A: uint64(v)})
 		case "collfail":
 			atomic.StoreInt32(collFail, 1)
 			env.Log.Add(evlog.Rec{K: "ctl.collfail", VB: -1})
